@@ -89,6 +89,32 @@ def run(ctx):
             elif got != want:
                 ctx.fail('oracle', w, impl=(got or p)[:400], model=None, expect=want[:400], note=f'the body of a side-effect block is not parsed to the tree the operator table dictates for it: {treesuite.tok_text(w)!r}')
         ctx.evaluations += len(wcases)
+        # a separator (blank line, `;`) directly after the `(` of a group is dropped like one at the start of the program: the
+        # tree of `5 + (<sep> E)` is the tree of `5 + (E)` (token indexes after the separator shifted by one)
+        def unshift(tree, pos):
+            return re.sub(r'\((\w+) (\d+)', lambda m: f'({m.group(1)} {int(m.group(2)) - (1 if int(m.group(2)) > pos else 0)}', tree)
+        pre = [T('Number', '5'), T('Whitespace', ' '), T('PlusSign', '+'), T('Whitespace', ' '), T('StartGroup', '(')]
+        seps = [T('Subexpression', '\n\n'), T('ExpressionSeparator', ';')]
+        gcases, gpairs = [], []
+        for k, c in enumerate(inref[:: (4 if ctx.tier == 'quick' else 1)]):
+            plain = ['PARSE', 'gp.' + c[1]] + pre + c[2:] + [T('EndGroup', ')')]
+            gcases.append(plain)
+            for j, sp in enumerate(seps):
+                withsep = ['PARSE', f'gs{j}.' + c[1]] + pre + [sp] + c[2:] + [T('EndGroup', ')')]
+                gcases.append(withsep)
+                gpairs.append((plain, withsep, len(pre)))
+        gres = treesuite.run_pipeline(gcases, 'c02g', stores=())
+        gchk = treesuite.treechk(gcases, gres, 'c02g')
+        for plain, withsep, pos in gpairs:
+            tp = (gchk.get(plain[1]) or {}).get('tree')
+            tw = (gchk.get(withsep[1]) or {}).get('tree')
+            stats['group-leading-separator'] = stats.get('group-leading-separator', 0) + 1
+            ctx.distinct.add('\t'.join(withsep[2:]))
+            if tp in (None, '-'):
+                continue
+            if tw in (None, '-') or unshift(tw, pos) != tp:
+                ctx.fail('oracle', withsep, impl=(tw or gres[withsep[1]]['parse'])[:400], model=None, expect=tp[:400], note=f'a separator directly after `(` changes the tree of the group: {treesuite.tok_text(withsep)!r} vs {treesuite.tok_text(plain)!r}')
+        ctx.evaluations += len(gcases)
     ctx.oblige('suite PARSE.tree (implementation = Lean parser model)', 'suite', dis == 0, f'{dis} disagreement(s)')
     ctx.rule = ('token-list cases: every ordered pair (quick) and triple (thorough) of operator token types — binary, prefix, suffix, implicit space list, comma list, conditional and apply forms — around atoms with and without whitespace tokens, and random deeper expressions with groups, nested expressions and separators; '
                 'the implementation`s node array is converted by the verified toTree and compared with refParse (precedence climbing over the LANGUAGE table, proved PrecOK for every accepted input); the same expressions wrapped as the body of a side-effect block (`[E]`, `7 [E]`) must give the same subtree under the SideEffect node; distinct = distinct token lists inside the reference grammar.')
